@@ -1016,10 +1016,10 @@ func (c *CEnv) callExpr(e *CE, hint *Value) Value {
 	if fn, fc, pkg := c.lookupPureFn(name); fn != nil && len(e.Args) == len(fn.Params) {
 		var args []Value
 		for k, p := range fn.Params {
-			if kindOf(p.Type()) == KPtr {
+			if pk := kindOf(p.Type()); pk == KPtr || pk == KSlice || pk == KArray {
 				a := c.eval(e.Args[k])
-				if a.K != KPtr {
-					c.fail("argument %d of %s must be a pointer in %s", k+1, name, e)
+				if a.K != pk {
+					c.fail("argument %d of %s has the wrong kind in %s", k+1, name, e)
 				}
 				args = append(args, a)
 				continue
